@@ -7,8 +7,7 @@ theorem invC_step_4 {w s l s'} (ha : InvA w s) (hi : InvC s) (hs : Step s l s') 
   cases hi
   cases hs with
   | oForward t c h hk => invC_auto
-  | oRefLoad t c h hk => invC_auto
-  | oRetire t c n h => invC_auto
+  | oEnter t c h hk => invC_auto
   | oWaited t c rest h ht hf => invC_auto
   | oGetc t c rest h ht hf => invC_auto
   | oGetRef t c rest h ht hf => invC_auto
